@@ -185,10 +185,16 @@ Picks(w) == [PendingSet(w) -> SUBSET Peers]
 GoodPick(w, pick) == \A b \in PendingSet(w) : pick[b] \in Choices(w, b)
 
 -----------------------------------------------------------------------------
+MemKept(x, w) == CASE Algo \in {"spray", "binary_spray"} -> w.meta[x].has
+                   [] Algo = "dtlsr" -> Attr[x].dst = "bcast"
+                   [] OTHER -> TRUE
 Exp(w) == [stored |-> {b \in Cat : w.st[b].known}, pending |-> {b \in Cat : w.st[b].known /\ w.st[b].pending},
            sends |-> w.sends, delivered |-> w.delivered, reports |-> w.reports,
            seq |-> [b \in {x \in Cat : w.st[x].known} |-> w.st[b].seq],
-           copies |-> [b \in {x \in Cat : w.meta[x].has} |-> w.meta[b].copies]]
+           copies |-> [b \in {x \in Cat : w.meta[x].has} |-> w.meta[b].copies],
+           \* the algorithm's memory of who has the bundle already (kept with the stored bundle, spray: in memory); compared with
+           \* the real one after every step, so that a wrong mark is seen at once and not only when a later contact is missed
+           mem |-> [b \in {x \in Cat : w.st[x].known /\ MemKept(x, w)} |-> IF Algo \in {"spray", "binary_spray"} THEN w.meta[b].sent ELSE w.st[b].sent]]
 
 Commit(w, rec) ==
   /\ st' = w.st /\ meta' = w.meta
